@@ -1073,3 +1073,27 @@ func DumpCmds(cmds []type1.GlyphOp, limit int) string {
 	}
 	return strings.TrimSpace(sb.String())
 }
+
+// EditInPlace changes a font the way an editor does between two saves: every
+// coordinate of every outline moves by (3, 3) and every stem edge by 1, while
+// the number of commands and hints, the advance widths and the glyph values
+// themselves (the same *Glyph pointers) stay what they were.
+func EditInPlace(f *type1.Font) {
+	for _, g := range f.Glyphs {
+		for i := range g.Cmds {
+			for k := range g.Cmds[i].Args {
+				g.Cmds[i].Args[k] += 3
+			}
+		}
+		for i := range g.HStem {
+			if g.HStem[i] < 32000 && g.HStem[i] > -32000 {
+				g.HStem[i]++
+			}
+		}
+		for i := range g.VStem {
+			if g.VStem[i] < 32000 && g.VStem[i] > -32000 {
+				g.VStem[i]++
+			}
+		}
+	}
+}
